@@ -127,10 +127,17 @@ package martian
 //@ pure
 //@ ensures result == (p.MITMConfig != nil && (p.MITMFilter == nil || filterSays(p.MITMFilter, req)))
 
+//@ ghost fn bufN(*bufio.Reader) int
 //@ func (*bufio.Reader).Buffered
 //@ trusted
 //@ pure
-//@ ensures result >= 0
+//@ ensures result >= 0 && result == bufN(b)
+
+// (Peek does not consume)
+//@ func (*bufio.Reader).Peek as (b *bufio.Reader, n int) (result0 []byte, result1 error)
+//@ trusted
+//@ pure
+//@ ensures result1 == nil ==> len(result0) == n
 
 //@ func (*Proxy).fixRequestScheme, upgradeType, shouldTerminateTLS, proxyutil.Warning
 //@ trusted
@@ -202,7 +209,7 @@ package martian
 // I/O on the client connection and message serialisation (net, bufio, net/http):
 // arbitrary effects on memory, but they never rewrite the status, method or
 // close flags of the messages they are given.
-//@ func (net.Conn).SetWriteDeadline, (net.Conn).SetReadDeadline, isTextEventStream, newPatternFlushWriter, (*proxyConn).writeResponse$1, drainBuffer, bicopy, ContextDuration, (io.Closer).Close, (io.ReadCloser).Close, (io.ReadWriteCloser).Close
+//@ func (net.Conn).SetWriteDeadline, (net.Conn).SetReadDeadline, isTextEventStream, newPatternFlushWriter, (*proxyConn).writeResponse$1, ContextDuration, (io.Closer).Close, (io.ReadCloser).Close, (io.ReadWriteCloser).Close
 //@ trusted
 //@ modifies *
 //@ preserves http.Response.StatusCode http.Response.Close http.Response.Request http.Request.Method http.Request.Close http.Response.Header http.Request.Header http.Request.URL http.Request.Body http.Response.Body proxyConn.* Proxy.* bufio.ReadWriter.* maps(http.Header)
@@ -269,7 +276,7 @@ package martian
 // is reported complete exactly once (here or by writeResponse on failure).
 //@ func (*proxyConn).tunnel
 //@ property C13 C03
-//@ requires p != nil && p.Proxy != nil && p.conn != nil && p.brw != nil && p.brw.Writer != nil && res != nil && res.Request != nil && res.Header != nil
+//@ requires p != nil && p.Proxy != nil && p.conn != nil && p.brw != nil && p.brw.Writer != nil && p.brw.Reader != nil && crw != nil && res != nil && res.Request != nil && res.Header != nil
 //@ requires deferredReport(res.Request.Method, res.StatusCode)
 //@ modifies *, nWrote(), wroteStatus(), sawClosing(), wrotePA(), wErr()
 //@ preserves proxyConn.Proxy proxyConn.brw proxyConn.conn Proxy.* bufio.ReadWriter.* http.Response.StatusCode http.Response.Request http.Request.Method
@@ -278,7 +285,7 @@ package martian
 
 //@ func (*proxyConn).handleUpgradeResponse
 //@ property C13 C03
-//@ requires p != nil && p.Proxy != nil && p.conn != nil && p.brw != nil && p.brw.Writer != nil && res != nil && res.Request != nil && res.Header != nil && res.StatusCode == 101 && res.Request.Method != "CONNECT"
+//@ requires p != nil && p.Proxy != nil && p.conn != nil && p.brw != nil && p.brw.Writer != nil && p.brw.Reader != nil && res != nil && res.Request != nil && res.Header != nil && res.StatusCode == 101 && res.Request.Method != "CONNECT"
 //@ modifies *, nWrote(), wroteStatus(), sawClosing(), wrotePA(), wErr()
 //@ preserves proxyConn.Proxy proxyConn.brw proxyConn.conn Proxy.* bufio.ReadWriter.* http.Response.StatusCode http.Response.Request http.Request.Method
 //@ ensures (!sawClosing() ==> nWrote() == old(nWrote()) + 1) && result != nil
@@ -287,7 +294,7 @@ package martian
 // ---- the per-request handler (C13 L13.1, C04 L4.1, C11 L11.2) ----
 
 // TLS / bufio / MITM plumbing used by handleMITM (crypto and buffering are library behaviour).
-//@ func (*bufio.ReadWriter).Peek, (*bufio.Reader).Peek, (*bufio.ReadWriter).Read, (*bufio.Reader).Read, tls.Server, (*tls.Conn).HandshakeContext, (*tls.Conn).ConnectionState, (*mitm.Config).TLSForHost, (*mitm.Config).HandshakeErrorCallback, (*mitm.Config).H2Config, (*h2.Config).Proxy, (*bufio.Writer).Reset, (*bufio.Reader).Reset, io.MultiReader, bytes.NewReader, (net.Addr).String
+//@ func (*bufio.ReadWriter).Peek, (*bufio.ReadWriter).Read, (*bufio.Reader).Read, tls.Server, (*tls.Conn).HandshakeContext, (*tls.Conn).ConnectionState, (*mitm.Config).TLSForHost, (*mitm.Config).HandshakeErrorCallback, (*mitm.Config).H2Config, (*h2.Config).Proxy, (*bufio.Writer).Reset, (*bufio.Reader).Reset, io.MultiReader, bytes.NewReader, (net.Addr).String
 //@ trusted
 //@ modifies *
 //@ preserves proxyConn.* Proxy.* bufio.ReadWriter.* http.Response.StatusCode http.Response.Request http.Request.Method http.Response.Header http.Request.Header http.Request.URL http.Request.Body http.Response.Body
@@ -376,3 +383,71 @@ package martian
 //@ func init
 //@ property C13 C12 C02
 //@ modifies **
+
+
+// ---- tunnels (C03): early data and half-close, sequential facts only ----
+
+// drainBuffer: whatever the client sent behind the request head (already read
+// into the buffer) is handed to the tunnel's writer, all of it, before the copy
+// starts; nothing is consumed from the buffer twice (Peek, then the raw
+// connection is copied).
+//@ ghost ivar drained(io.Writer) bool
+//@ func drainBuffer
+//@ property C03
+//@ ghostset drained(w) := (result == nil)
+//@ requires r != nil && w != nil
+//@ modifies wlen(w), wdata, wrFailed(w), elems(byte), drained(w)
+//@ ensures result == nil && !wrFailed(w) ==> wlen(w) == old(wlen(w)) + bufN(r)
+//@ ensures bufN(r) == 0 ==> wlen(w) == old(wlen(w)) && result == nil
+
+// closeWriter: when a direction ends, the write side of its destination is
+// shut down (CloseWrite where the connection supports it, Close for a pipe) -
+// never a full close of a connection that can be half-closed.
+//@ ghost fn cwOf(io.Writer) closeWriter
+//@ ghost ivar nCloseWrite(closeWriter) int
+//@ ghost ivar nPipeClose(*io.PipeWriter) int
+//@ func asCloseWriter
+//@ trusted
+//@ pure
+//@ ensures result1 == (cwOf(w) != nil) && (result1 ==> result0 == cwOf(w))
+//@ func (closeWriter).CloseWrite as (cw closeWriter) (err error)
+//@ trusted
+//@ modifies *, nCloseWrite(cw)
+//@ ensures nCloseWrite(cw) == old(nCloseWrite(cw)) + 1
+//@ func (*io.PipeWriter).Close as (pw *io.PipeWriter) (err error)
+//@ trusted
+//@ modifies *, nPipeClose(pw)
+//@ ensures nPipeClose(pw) == old(nPipeClose(pw)) + 1
+
+//@ func (copier).closeWriter
+//@ property C03
+//@ requires ctx != nil
+//@ modifies *, nCloseWrite(cwOf(c.dst)), nPipeClose
+//@ ensures cwOf(c.dst) != nil ==> nCloseWrite(cwOf(c.dst)) == old(nCloseWrite(cwOf(c.dst))) + 1
+//@ ensures cwOf(c.dst) == nil && (c.dst is *io.PipeWriter) ==> nPipeClose(c.dst.(*io.PipeWriter)) == old(nPipeClose(c.dst.(*io.PipeWriter))) + 1
+
+// copy: however the copy ends - end of stream, or an error in either
+// direction - the write side of the destination is shut down exactly once.
+//@ func io.CopyBuffer
+//@ trusted
+//@ modifies *
+//@ func (copier).copy
+//@ property C03
+//@ requires ctx != nil
+//@ modifies *, nCloseWrite(cwOf(c.dst)), nPipeClose
+//@ ensures cwOf(c.dst) != nil ==> nCloseWrite(cwOf(c.dst)) == old(nCloseWrite(cwOf(c.dst))) + 1
+
+// (the only pool of this package holds *[]byte buffers: New makes one, copy puts back what it got)
+//@ func (*sync.Pool).Get as (p *sync.Pool) (result any)
+//@ trusted
+//@ pure
+//@ ensures result is *[]byte && nonnilptr(result)
+//@ pure (*sync.Pool).Put
+
+// bicopy runs the two directions concurrently (goroutines: outside the model);
+// it may only start once the early data has been handed to the upstream side.
+//@ func bicopy
+//@ trusted
+//@ requires len(cc) == 2 && drained(cc[0].dst)
+//@ modifies *
+//@ preserves proxyConn.Proxy proxyConn.brw proxyConn.conn Proxy.* bufio.ReadWriter.* http.Response.StatusCode http.Response.Request http.Request.Method
